@@ -126,12 +126,14 @@ def sym_obs(it, s):
     snap = {k: c.v for k, c in it.statics.items()}
     try:
         return _sym_obs(it, s)
-    finally:
+    except BaseException:
+        # abandoned in the middle (possibly inside a critical section): back to the state before this input
         for k, c in list(it.statics.items()):
             if k in snap:
                 c.v = snap[k]
             else:
                 del it.statics[k]
+        raise
 
 
 def _sym_obs(it, s):
